@@ -5,6 +5,7 @@
 //!   @<name> begin|commit|rollback|drop      session control
 //!   @<name> <sql>                  statement inside session <name>
 //!   @flush | @vacuum | @analyze | @reopen | @explain <sql> | @batch a;;b;;c
+//!   @burn <n> <sql>                the statement n times
 //!   @cfg cache=<n> page=<n> pool=<n>    (first line only) database configuration
 //!
 //! Every step produces one canonical outcome string (`Out::show`).
@@ -73,6 +74,19 @@ impl Runner {
                     self.sessions.clear();
                     let c = self.db.cfg;
                     format!("reopen {:?}", self.db.reopen(c))
+                }
+                "burn" => {
+                    // @burn <n> <sql>: the statement n times (advances the transaction counter)
+                    let (n, sql) = arg.split_once(' ').unwrap_or((arg, "SELECT 1"));
+                    let n: usize = n.parse().unwrap_or(0);
+                    for _ in 0..n {
+                        let o = self.db.exec(sql);
+                        if !o.is_ok() {
+                            return format!("burn ERR {}", o.show());
+                        }
+                    }
+                    crate::dbx::tick();
+                    format!("burn {} ok", n)
                 }
                 "batch" => {
                     let v: Vec<&str> = arg.split(";;").collect();
